@@ -298,7 +298,9 @@ func (g *c11G) create(noVector map[string]bool) {
 		metric = distance.Cosine
 	}
 	// exact regime: at most 8 vectors, M=16 (base layer holds 32 links), efConstruction 200
-	if err := g.x.VCreate(vexec.IndexCfg{Name: g.ix, Metric: metric, Prec: distance.Float32, M: 16, EfC: 200}); err != nil {
+	// every vector carries a text ("alpha" + one more word), so that a scoped search can also be
+	// asked with a text part: the scope is the same whatever the search ranks by
+	if err := g.x.VCreate(vexec.IndexCfg{Name: g.ix, Metric: metric, Prec: distance.Float32, M: 16, EfC: 200, Lang: "english"}); err != nil {
 		g.cs.Fail("VCreate failed: %v", err)
 	}
 	for i, n := range g.nodes {
@@ -319,7 +321,7 @@ func (g *c11G) openTwin(name string, noVector map[string]bool) *c11G {
 
 func (g *c11G) addVec(i int, n string) {
 	v := []float32{float32(i + 1), float32((i*7)%5) + 0.5, 1 + g.cs.R.F32()*0.25}
-	if err := g.x.VAdd(g.ix, n, v, map[string]any{"i": float64(i)}); err != nil {
+	if err := g.x.VAdd(g.ix, n, v, map[string]any{"i": float64(i), "content": "alpha " + []string{"dog", "cat", "fox"}[i%3]}); err != nil {
 		g.cs.Fail("VAdd(%s) failed: %v", n, err)
 	}
 }
@@ -734,6 +736,28 @@ func (g *c11G) checkScopedSearch(root string, rels []string, dir string, depth i
 		g.fail("VSearch+GraphQuery", 0, "root=%s rels=%v dir=%q depth=%d returned error %v", root, rels, dir, depth, err)
 	}
 	g.compareScoped("VSearch+GraphQuery", ids, root, rels, dir, depth)
+	// the same scope with a text part: every vector's text contains "alpha", so a hybrid
+	// search (explicit text or CONTAINS) and a text-only search (all-zero query vector) must
+	// return exactly the live vectors of the scope as well - in particular nothing when the scope
+	// holds no vector
+	if g.cs.R.Chance(0.5) {
+		mode := vkit.Pick(g.cs.R, []string{"hybrid-explicit", "hybrid-contains", "text-only", "text-only-contains"})
+		qt, filter, text, alpha := q, "", "alpha", 0.5
+		if strings.HasPrefix(mode, "text-only") {
+			qt, alpha = make([]float32, len(q)), 0
+		}
+		if strings.HasSuffix(mode, "contains") {
+			filter, text = "CONTAINS(content, 'alpha')", ""
+		}
+		g.cs.Op("VSearch(%s,q=%v,k=%d,filter=%q,text=%q,alpha=%v,graph=%s) [%s]", g.ix, qt, k, filter, text, alpha, vkit.JSON(gq), mode)
+		g.nqueries++
+		idsT, err := g.x.E.VSearch(g.ix, qt, k, filter, text, ef, alpha, gq)
+		g.ctx.Count("scoped_search.calls_with_text."+mode, 1)
+		if err != nil {
+			g.fail("VSearch+GraphQuery("+mode+")", 0, "root=%s rels=%v dir=%q depth=%d returned error %v", root, rels, dir, depth, err)
+		}
+		g.compareScoped("VSearch+GraphQuery("+mode+")", idsT, root, rels, dir, depth)
+	}
 	// k smaller than the scope: whatever the ranking picks, every hit must lie in the scope
 	// ("graph-scoped search covers exactly the nodes reachable ..."), no id twice, at most k
 	// hits, and at least one hit when the scope holds a live vector.
